@@ -1,0 +1,6 @@
+//go:build !verif
+// +build !verif
+
+package mtproto
+
+func verifGate(string, ...interface{}) {}
